@@ -117,7 +117,10 @@ class Life:
                 elif r.kind == 'set_kill_time' and 'target' in r.kv:
                     t = self.by_pid.get(int(r.kv['target']))
                     if t is not None and float(c.args[1]) > c.clock:
-                        t.kill_time = float(c.args[1])
+                        # requests are handled in the order of their call records: the last call wins
+                        if getattr(t, 'kt_seq', -1) < c.seq:
+                            t.kill_time = float(c.args[1])
+                            t.kt_seq = c.seq
         # kills without R (suicide / kill_all / killer killed): use C records
         for key, c in calls.items():
             if c.kind == 'kill_all':
